@@ -107,7 +107,8 @@ Definition mk_staircase (l r : list N) : res pbox :=
 Definition pneg (p : pbox) : res pbox :=
   mk_staircase (nsort (map (nopp N) (rev (snd p)))) (nsort (map (nopp N) (rev (fst p)))).
 Definition precip (p : pbox) : res pbox :=
-  mk_staircase (map (fun x => none / x) (rev (snd p))) (map (fun x => none / x) (rev (fst p))).
+  if (nth0 (fst p) 0 <=? nzero) && (nzero <=? lastn (snd p)) then Raise ZeroDivision
+  else mk_staircase (map (fun x => none / x) (rev (snd p))) (map (fun x => none / x) (rev (fst p))).
 Definition pnum (f : N -> N -> N) (p : pbox) (c : N) : res pbox :=
   mk_staircase (nsort (map (fun x => f x c) (fst p))) (nsort (map (fun x => f x c) (snd p))).
 Definition punary (f : N -> N) (p : pbox) : res pbox := mk_staircase (map f (fst p)) (map f (snd p)).
